@@ -2,7 +2,7 @@
 hooked driver(s), generated Coq data, the Coq development, the extracted model runner."""
 import os, sys, glob, shutil
 from common import *
-import gen_tables, gen_consts
+import gen_tables, gen_consts, gen_srcconsts
 
 ENVFILE = os.path.join(CACHE, "env.txt")
 
@@ -28,7 +28,7 @@ def coq_make(target=None, timeout=3000):
     if not os.path.exists(os.path.join(COQ, "Makefile")) or \
             os.path.getmtime(os.path.join(COQ, "Makefile")) < os.path.getmtime(os.path.join(COQ, "_CoqProject")):
         run("coq_makefile -f _CoqProject -o Makefile", cwd=COQ)
-    cmd = ["make", "-j16"] + ([target] if target else [])
+    cmd = ["make", "-j16", "-k"] + ([target] if target else [])   # -k: a broken file must not keep unrelated ones from being built
     return run(cmd, cwd=COQ, timeout=timeout, check=False)
 
 
@@ -58,6 +58,7 @@ def build(profiles=("dev",), coq=True):
             cargo_build(p)
         tables, _ = gen_tables.generate(DRIVER_DEV)
         consts, _ = gen_consts.generate(DRIVER_DEV)
+        gen_srcconsts.generate()
         write_env(DRIVER_DEV, consts)
         msg = ""
         ok = True
